@@ -8,7 +8,69 @@ use crate::val::dec_object;
 use crate::Outcome;
 use serde_json::{json, Value as J};
 
+/// "free" histories: templates given as source text (they may use filters, which LiquidInterp does not evaluate); the
+/// specification only says that the result is a function of (template, data): every call on the shared parser must
+/// return what the same (template, data) returns when executed alone - fresh parser, fresh parse, fresh THREAD.
+fn run_free(rec: &J) -> Outcome {
+    let fail = |why: &str, extra: J| Outcome::fail(true, json!({"why": why, "info": extra}));
+    let empty = Vec::new();
+    let srcs: Vec<String> = rec["srcs"].as_array().unwrap_or(&empty).iter().filter_map(crate::val::dec_text).collect();
+    let parts = match partial_sources(&rec["parts"]) {
+        Ok(p) => p,
+        Err(e) => return fail("harness: cannot print partial", json!(e)),
+    };
+    let mut datas = Vec::new();
+    for d in rec["datas"].as_array().unwrap_or(&empty) {
+        match dec_object(d) {
+            Ok(o) => datas.push(o),
+            Err(e) => return fail("harness: cannot decode data", json!(e)),
+        }
+    }
+    let policy = rec["policy"].as_str().unwrap_or("lazy").to_string();
+    let calls = rec["calls"].as_array().unwrap_or(&empty);
+    // alone: one fresh thread per call
+    let mut alone = Vec::new();
+    for c in calls {
+        let (i, j) = (c[0].as_u64().unwrap_or(1) as usize - 1, c[1].as_u64().unwrap_or(1) as usize - 1);
+        let (src, data, parts, policy) = (srcs[i].clone(), datas[j].clone(), parts.clone(), policy.clone());
+        let h = std::thread::spawn(move || {
+            let p = build_parser(&policy, &parts).map_err(|e| e.to_string())?;
+            let t = p.parse(&src).map_err(|e| e.to_string())?;
+            Ok::<J, String>(outcome_json(&t.render(&data)))
+        });
+        match h.join() {
+            Ok(Ok(o)) => alone.push(o),
+            Ok(Err(e)) => return fail("free history: template or parser rejected", json!(e)),
+            Err(_) => return fail("free history: panic when executed alone", json!(null)),
+        }
+    }
+    let parser = match build_parser(&policy, &parts) {
+        Ok(p) => p,
+        Err(e) => return fail("parser construction failed", json!(e)),
+    };
+    let mut templates = Vec::new();
+    for s in &srcs {
+        match parser.parse(s) {
+            Ok(t) => templates.push(t),
+            Err(e) => return fail("generated template was rejected by the parser", json!({"src": s, "err": e.to_string()})),
+        }
+    }
+    for (k, c) in calls.iter().enumerate() {
+        let (i, j) = (c[0].as_u64().unwrap_or(1) as usize - 1, c[1].as_u64().unwrap_or(1) as usize - 1);
+        let got = outcome_json(&templates[i].render(&datas[j]));
+        let same = got["ok"] == alone[k]["ok"] && (got["ok"] == false || got["out"] == alone[k]["out"]);
+        if !same {
+            return fail("result of a render call depends on the history",
+                json!({"call": k + 1, "calls": calls, "src": srcs[i], "data": rec["datas"][j], "policy": policy, "got": got, "alone": alone[k]}));
+        }
+    }
+    Outcome::ok(true)
+}
+
 pub fn run(rec: &J) -> Outcome {
+    if rec.get("free").and_then(|x| x.as_bool()) == Some(true) {
+        return run_free(rec);
+    }
     let nontrivial = rec.get("nt").and_then(|x| x.as_bool()).unwrap_or(true);
     let fail = |why: &str, extra: J| Outcome::fail(nontrivial, json!({"why": why, "info": extra}));
     let empty = Vec::new();
